@@ -13,7 +13,7 @@ import r_servers
 PROPS = {}
 
 PROPS["C09"] = {
-    "rules": [lambda F, R: r_cloud.rule_K(F, R), lambda F, R: r_cloud.rule_ED(F, R)],
+    "rules": [lambda F, R: r_cloud.rule_K(F, R), lambda F, R: r_cloud.rule_ED(F, R), lambda F, R: r_cloud.rule_cleanup(F, R, which=("O1",)), r_cloud.rule_K6],
     "explanation": "Decides structural necessary conditions K1-K5 and ED on the object-store Server impl (DESIGN.md C09); the interleaving semantics are NOT decided.",
     "not_decided": "which candidate get_child_version picks while another client is between put and swap; every interleaving at request granularity",
     "assumptions": ["Service implementations provide an atomic compare_and_swap as documented"],
